@@ -11,6 +11,16 @@ import time
 VERIF = os.path.dirname(os.path.dirname(os.path.abspath(__file__)))
 
 
+def _default_signals():
+    """a driver must not inherit ignored signals from whatever shell started the check (background
+    jobs of a non-interactive shell ignore SIGINT and SIGQUIT): its children are killed with them"""
+    for s in (signal.SIGINT, signal.SIGQUIT, signal.SIGHUP, signal.SIGTERM, signal.SIGUSR1, signal.SIGUSR2):
+        try:
+            signal.signal(s, signal.SIG_DFL)
+        except (OSError, ValueError):
+            pass
+
+
 def time_scale():
     """Allowance factor for real-time bounds: 1 on an idle machine, growing with the 1-minute
     load per core (a bound that is tight on an idle machine must not become a false alarm on
@@ -37,7 +47,7 @@ def run_driver(module, args, timeout, env=None):
     with open(log, 'w') as lf:
         p = subprocess.Popen([sys.executable, '-m', module, out] + [str(a) for a in args],
                              cwd=VERIF, env=e, stdout=lf, stderr=subprocess.STDOUT,
-                             start_new_session=True)
+                             start_new_session=True, preexec_fn=_default_signals)
         t0 = time.time()
         rc = None
         while time.time() - t0 < timeout:
